@@ -184,11 +184,23 @@ func init() { extraKinds["keycache"] = runKeyCache }
 // keyFor: key number k of the cache model for a format. The binary formats carry any bytes as a member name:
 // there the second of the two equal-length keys is the single byte 0xE9 (no UTF-8, not ASCII).
 func keyFor(fmt string, k int) string {
+	if longKeyLen > 0 {
+		// sub.keylen = L: member names of L-1, L, L, L+1, L+476 and 2L bytes (different from their first byte on)
+		n := []int{longKeyLen - 1, longKeyLen, longKeyLen, longKeyLen + 1, longKeyLen + 476, 2 * longKeyLen}[k-1]
+		b := bytes.Repeat([]byte{byte('a' + k)}, n)
+		for i := 64; i < n; i += 64 {
+			b[i] = byte('0' + (i/64)%10) // ... and not periodic
+		}
+		return string(b)
+	}
 	if k == 3 && fmt != "json" {
 		return "\xe9"
 	}
 	return cacheKeys[k-1]
 }
+
+// longKeyLen is set by runKeyCache for the duration of a case (cases run one at a time within a process).
+var longKeyLen int
 
 var cacheKeys = []string{"", "a", "b", "ab", "abc", "kéy"} // ids 1..: the empty key, two keys of equal length, keys sharing a prefix
 
@@ -200,6 +212,11 @@ var cacheKeys = []string{"", "a", "b", "ab", "abc", "kéy"} // ids 1..: the empt
 func runKeyCache(c *Case, tr *Trace) {
 	capN := int(c.Sub["cap"].(float64))
 	target, _ := c.Sub["target"].(string)
+	longKeyLen = 0
+	if kl, ok := c.Sub["keylen"].(float64); ok {
+		longKeyLen = int(kl)
+		defer func() { longKeyLen = 0 }()
+	}
 	var docs [][]int
 	cur := []int{}
 	for _, x := range c.Sub["hist"].([]interface{}) {
@@ -257,7 +274,7 @@ func runKeyCache(c *Case, tr *Trace) {
 		// sub.sharedbuf: the caller reads every document into ONE input buffer (member names of successive
 		// documents then arrive by reference from the same memory)
 		sharedbuf, _ := c.Sub["sharedbuf"].(bool)
-		shared := make([]byte, 4096)
+		shared := make([]byte, 1<<16)
 		for _, d := range docs {
 			buf := encode(d, pos)
 			if sharedbuf && len(buf) <= len(shared) {
